@@ -63,7 +63,16 @@ func (env *SpecEnv) bindResults(fn *ssa.Function, rs []T) {
 		tv := TV{rs[i], res.At(i).Type()}
 		env.vars[fmt.Sprintf("result%d", i)] = tv
 		if i == 0 {
-			env.vars["result"] = tv
+			// "result" names the first result unless the function has a parameter of that name
+			clash := false
+			for _, p := range fn.Params {
+				if p.Name() == "result" {
+					clash = true
+				}
+			}
+			if !clash {
+				env.vars["result"] = tv
+			}
 		}
 		if n := res.At(i).Name(); n != "" && n != "_" {
 			env.vars[n] = tv
@@ -905,6 +914,11 @@ func (env *SpecEnv) evalCall(e *ast.CallExpr) (TV, error) {
 				vc.axiom(Ge(l, IntLit(0)).s)
 			}
 			return TV{l, types.Typ[types.Int]}, nil
+		}
+		if x.typ != nil {
+			if _, isMap := x.typ.Underlying().(*types.Map); isMap {
+				return TV{ex.mapCard(env.state(), x.typ, x.t), types.Typ[types.Int]}, nil
+			}
 		}
 		return TV{}, fmt.Errorf("len of %s", x.t.sort)
 	case "ghost":
